@@ -641,7 +641,10 @@ def run(repo, rep):
     check_siblings(rep, ops)
     check_null_table(rep, ops, ad)
     check_wrappers(repo, rep, ops, ad)
-    check_int_division(repo, rep)
+    try:
+        check_int_division(repo, rep)
+    except AnalysisError as e:
+        rep.error(str(e))      # the other rules do not depend on it
     from sa.rules import c02
     rep.rule('R02e', 'see C02: every operator symbol, aliased or not, '
              'is reduced to an operator call node (the premise of the kind '
